@@ -568,6 +568,57 @@ func TestVerifC01Listeners(t *testing.T) {
 			}
 		}()
 	}
+	// DoQ: streams whose length prefix announces more octets than are ever sent, left open by the client (no FIN, no reset), more than
+	// the listener's stream limit: the listener gives each up after its read timeout and hands the stream credit back, so further
+	// streams - and a valid query - still get through on the same connection
+	if a := addrs["quic"]; a != "" && alive() {
+		func() {
+			ctx, cancel := context.WithTimeout(context.Background(), 90*time.Second)
+			defer cancel()
+			conn, err := quic.DialAddr(ctx, a, &tls.Config{InsecureSkipVerify: true, NextProtos: []string{"doq"}}, &quic.Config{})
+			if err != nil {
+				rep.Note("quic lying-length phase skipped: " + err.Error())
+				return
+			}
+			defer conn.CloseWithError(0, "")
+			desc := "quic: 120 streams with a length prefix of 100 and 10 octets of body, left open, then a valid query on the same connection"
+			rep.Eval(desc)
+			for i := 0; i < 120; i++ {
+				octx, ocancel := context.WithTimeout(ctx, 20*time.Second)
+				st, err := conn.OpenStreamSync(octx)
+				ocancel()
+				if err != nil {
+					if !alive() {
+						died("quic", desc)
+						return
+					}
+					rep.Violate("C01:listener:quic:stopped-serving:lying-length-streams", fmt.Sprintf("after %d streams whose announced length never arrives no further stream can be opened for 20 s (%v): the listener never gives the stalled streams up", i, err), nil)
+					return
+				}
+				st.Write(append([]byte{0, 100}, make([]byte, 10)...))
+			}
+			octx, ocancel := context.WithTimeout(ctx, 20*time.Second)
+			st, err := conn.OpenStreamSync(octx)
+			ocancel()
+			ok := false
+			if err == nil {
+				st.SetDeadline(time.Now().Add(10 * time.Second))
+				st.Write(refdns.Frame(valid(0)))
+				st.Close()
+				b, _ := io.ReadAll(io.LimitReader(st, 70000))
+				if len(b) > 2 {
+					ok = okResp(b[2:], 0)
+				}
+			}
+			if !ok {
+				if !alive() {
+					died("quic", desc)
+					return
+				}
+				rep.Violate("C01:listener:quic:stopped-serving:lying-length-streams", fmt.Sprintf("a valid query on a connection that carried 120 stalled streams is not answered (open stream error: %v)", err), nil)
+			}
+		}()
+	}
 	rep.Sample(map[string]any{"listener": "fasthttp", "input": "POST /dns-query without Content-Length", "expect": "HTTP error status, process alive, next valid query answered"})
 }
 
